@@ -102,6 +102,16 @@ impl CompleteStatus {
   }
 }
 
+#[cfg(feature = "verif_hooks")]
+impl CompleteStatus {
+  /// the future `wait_for_end` blocks on, for harnesses that bring their own executor
+  pub fn verif_wait_future(
+    this: Arc<Self>,
+  ) -> impl Future<Output = NormalReturn<()>> {
+    StatusFuture(this)
+  }
+}
+
 struct StatusFuture(Arc<CompleteStatus>);
 impl Future for StatusFuture {
   type Output = NormalReturn<()>;
@@ -113,6 +123,8 @@ impl Future for StatusFuture {
     if self.0.is_closed() {
       Poll::Ready(NormalReturn::new(()))
     } else {
+      #[cfg(feature = "verif_hooks")]
+      crate::verif_hooks::yield_now(crate::verif_hooks::YIELD_STATUS_POLL, 0);
       self.0.waker.register(cx.waker());
       Poll::Pending
     }
